@@ -1960,9 +1960,27 @@ class Engine:
                     res.extend(self.exec_block(s, h.body))
                     handled = True
                     break
+                if any(self.exc_may_match(v.cls, n) for n in names):
+                    # an exception of unknown class (interface contract "raises any BaseException"): this handler catches
+                    # some of them - both outcomes are explored
+                    disc = self.fresh("exc_caught", BoolS)
+                    s2 = s.fork()
+                    s2.add_cond(disc)
+                    s.add_cond(z3.Not(disc))
+                    if h.name:
+                        s2.env[h.name] = v
+                    res.extend(self.exec_block(s2, h.body))
             if not handled:
                 res.append((s, oc, v))
         return res
+
+    def exc_may_match(self, cls, handler):
+        """an exception of an unknown class MAY be caught by a handler for a narrower class"""
+        if cls == "$any":
+            return handler != "BaseException"
+        if cls == "$anyException":
+            return handler not in ("BaseException", "Exception", "KeyboardInterrupt", "SystemExit", "GeneratorExit")
+        return False
 
     def exc_matches(self, cls, handler):
         if cls == "$any":
@@ -2098,7 +2116,7 @@ class Engine:
             self.unsupported("loop target", st)
         jn = st.target.id
         label = "%s#loop%s" % (self.cur_func_qual, self.loop_ordinal(st))
-        self.run_ghost(state, spec.ghost_before)
+        self.run_ghost(state, spec.ghost_before, old=self.fn_pre_state)
         zlo, zhi = to_z3(lo, IntS), to_z3(hi, IntS)
         # 1. invariant on entry
         state.env[jn] = lo
@@ -2273,7 +2291,7 @@ class Engine:
         """Loop rule for loops whose head has side effects (while-test with calls, iterator protocol):
         invariant holds before every evaluation of the head; head(s) -> [(state, 'enter'|'exit')]."""
         label = "%s#loop%s" % (self.cur_func_qual, self.loop_ordinal(st))
-        self.run_ghost(state, spec.ghost_before)
+        self.run_ghost(state, spec.ghost_before, old=self.fn_pre_state)
         entry_snapshot = state.fork()
         proved = []
         for i, inv in enumerate(spec.invariant):
